@@ -10,7 +10,7 @@ use crate::fail;
 use crate::gen::*;
 use crate::gen1d::*;
 use crate::oracle::*;
-use crate::splinegen::SplineOpts;
+use crate::splinegen::{interval_samples, SplineOpts};
 
 pub struct C06;
 
@@ -38,7 +38,8 @@ impl Check for C06 {
          boundary selection, Bilinear. Finite queries: in range (knots, +-ulp, interior), the floats just outside each end, and \
          2^j spans outside for j in -10..40 (f32: -6..8) on either side; 2-D: outside in x only, y only, both. Oracle: (i) never \
          Err/panic; (ii) in range bit-identical to the non-extrapolating twin (same concrete type); (iii) outside: exact rational end \
-         line / end cubic of the certified exact spline / bilinear form of the border cell, allowances of DESIGN 3.4 with growth \
+         line / the end cubic that the implementation itself realises on its end interval (recovered by an exact rational fit of 4 of its in-range \
+         values, so independent of C02/C03) / bilinear form of the border cell, allowances of DESIGN 3.4 with growth \
          factor. Non-trivial: at least one query strictly outside the range."
             .into()
     }
@@ -127,39 +128,62 @@ fn run1<T: Flt>(src: &mut Src, obs: &mut Obs) -> Result<(), Fail> {
             }
         }
     }
-    // outside: exact end polynomial
+    // outside: the polynomial piece of the nearest end interval evaluated at the query.
+    // Linear: the line through the two end data points. CubicSpline: the cubic that the
+    // implementation itself realises on its end interval, recovered exactly (rational cubic
+    // fit) from 4 of its in-range values - so this check does not depend on whether the
+    // spline's coefficients are the right ones (that is C02/C03), only on how it is continued.
     let n = c.n;
-    for l in 0..c.lanes {
-        let yl = c.lane_data(l);
-        let sp = match &c.strat {
-            StratSel::Linear => None,
-            StratSel::Spline(bc) => Some(match Spline::solve(&c.x, &yl, &bc.bounds(l)) {
-                Ok(s) => s,
-                Err(e) => fail!("oracle-bug", "exact spline failed: {e}"),
-            }),
-        };
-        for k in 0..nq {
-            if !out[k] {
-                continue;
-            }
-            let q = qs[k];
-            let i = if q < c.x[0] { 0 } else { n - 2 };
-            let t = (q - c.x[i]) / (c.x[i + 1] - c.x[i]);
-            let got = ra[k][l].f();
-            let (want, tol) = match &sp {
-                None => {
-                    let (y1, y2) = (yl[i], yl[i + 1]);
-                    (exact_line(c.x[i], y1, c.x[i + 1], y2, q), super::c01::ULPS * 2.0 * T::U * (y1.abs() + t.abs() * (y1.abs() + y2.abs())))
+    let is_spline = matches!(c.strat, StratSel::Spline(_));
+    for side in [0usize, n - 2] {
+        let outs: Vec<usize> = (0..nq).filter(|&k| out[k] && ((qs[k] < c.x[0]) == (side == 0))).collect();
+        if outs.is_empty() || (side == n - 2 && n == 2 && false) {
+            continue;
+        }
+        let i = side;
+        let h = c.x[i + 1] - c.x[i];
+        // in-range samples of the end interval (spline only)
+        let samp = interval_samples::<T>(&c.x, i);
+        let sv = if is_spline && samp.len() >= 5 { Some(eval1::<T>(a.as_ref(), &samp, 1, c.lanes, &c.trailing)?) } else { None };
+        if is_spline && sv.is_none() {
+            obs.count("end_interval_with_fewer_than_5_distinct_samples", 1);
+            continue;
+        }
+        for l in 0..c.lanes {
+            let yl = c.lane_data(l);
+            let fit = sv.as_ref().map(|sv| {
+                let idx = [0usize, 1, 3, 4];
+                let q4: Vec<Rat> = idx.iter().map(|&j| Rat::from_f64(samp[j])).collect();
+                let v4: Vec<Rat> = idx.iter().map(|&j| Rat::from_f64(sv[j][l].f())).collect();
+                let vmax = sv.iter().map(|v| v[l].f().abs()).fold(yl.iter().fold(0f64, |a, v| a.max(v.abs())), f64::max);
+                let smax = (0..samp.len() - 1).map(|j| ((sv[j + 1][l].f() - sv[j][l].f()) / (samp[j + 1] - samp[j])).abs()).fold(0f64, f64::max);
+                (q4, v4, vmax + 4.0 * h * smax)
+            });
+            for &k in &outs {
+                let q = qs[k];
+                let t = (q - c.x[i]) / h;
+                let got = ra[k][l].f();
+                let (want, tol) = match &fit {
+                    None => {
+                        let (y1, y2) = (yl[i], yl[i + 1]);
+                        (exact_line(c.x[i], y1, c.x[i + 1], y2, q), super::c01::ULPS * 2.0 * T::U * (y1.abs() + t.abs() * (y1.abs() + y2.abs())))
+                    }
+                    Some((q4, v4, sigma)) => {
+                        let at = Rat::from_f64(q);
+                        let want = super::c03::fit_cubic(q4, v4, &at)[0].clone();
+                        let w = super::c03::deriv_weights(q4, &at, 0);
+                        let a_in = k_const::<T>() * T::U * sigma * 1.25;
+                        (want, super::c03::norm1(&w, &[a_in; 4]) + k_const::<T>() * T::U * sigma * growth(t))
+                    }
+                };
+                let (ok, ne) = within(got, &want, tol + T::TINY);
+                obs.asserts += 1;
+                obs.err_l(&format!("outside:{}:{}", if is_spline { "spline" } else { "linear" }, T::NAME), ne);
+                if !ok {
+                    fail!(format!("end-polynomial/{}/{}", c.strat.name(), if i == 0 { "left" } else { "right" }),
+                        "T={} {} lane {l}: q={q:e} outside [{:e},{:e}] (t={t:.3e}): got {got:e}, the end piece continued gives {:e}, |diff|/allowance={ne:.3e}; x={:?} y={:?}",
+                        T::NAME, c.strat.name(), c.x[0], c.x[n - 1], want.to_f64(), c.x, yl);
                 }
-                Some(sp) => (sp.eval(i, &Rat::from_f64(q)), k_const::<T>() * T::U * sp.sigma(i) * growth(t)),
-            };
-            let (ok, ne) = within(got, &want, tol + T::TINY);
-            obs.asserts += 1;
-            obs.err_l(&format!("outside:{}:{}", if sp.is_some() { "spline" } else { "linear" }, T::NAME), ne);
-            if !ok {
-                fail!(format!("end-polynomial/{}/{}", c.strat.name(), if i == 0 { "left" } else { "right" }),
-                    "T={} {} lane {l}: q={q:e} outside [{:e},{:e}] (t={t:.3e}): got {got:e}, end polynomial {:e}, |diff|/allowance={ne:.3e}; x={:?} y={:?}",
-                    T::NAME, c.strat.name(), c.x[0], c.x[n - 1], want.to_f64(), c.x, yl);
             }
         }
     }
